@@ -1,4 +1,5 @@
 import Hive.Model.EventsRelink
+import Hive.Model.EventsIter
 /-!
 # `LinkTo` concurrent with `Trigger`: registry, iterator, link-structure and mutex invariants
 -/
@@ -670,5 +671,38 @@ theorem cfgInv_start {c : Cfg Sh Th} (h : Start c) : CfgInv c := by
     cases t with
     | lk toX pc => cases pc <;> simp [Th.initial] at hi; simp [holding]
     | _ => simp [holding]
+
+/-- Forgetting the ghost stamp of the frozen entries gives the registry of `EventsIter`. -/
+def proj (r : Reg) : Hive.EventsIter.Reg :=
+  { live := r.live, frozen := r.frozen.map (fun q => (q.1, q.2.1)), counter := r.counter }
+
+theorem proj_attach (r : Reg) : proj (attach r) = Hive.EventsIter.attach (proj r) := rfl
+
+theorem proj_liveNext (r : Reg) (x : Nat) : Hive.EventsIter.liveNext (proj r) x = liveNext r x := rfl
+
+theorem proj_delete (r : Reg) (x : Nat) : proj (delete r x) = Hive.EventsIter.delete (proj r) x := by
+  unfold delete Hive.EventsIter.delete
+  by_cases h : r.live.contains x = true
+  · have h' : (proj r).live.contains x = true := h
+    rw [if_pos h, if_pos h']; rfl
+  · have h' : ¬ (proj r).live.contains x = true := h
+    rw [if_neg h, if_neg h']
+
+theorem proj_next (r : Reg) (x : Nat) : Hive.EventsIter.next (proj r) x = next r x := by
+  unfold next Hive.EventsIter.next
+  by_cases h : r.live.contains x = true
+  · have h' : (proj r).live.contains x = true := h
+    rw [if_pos h, if_pos h']; rfl
+  · have h' : ¬ (proj r).live.contains x = true := h
+    rw [if_neg h, if_neg h']
+    simp only [proj, List.find?_map]
+    cases hf : r.frozen.find? ((fun p => p.1 == x) ∘ fun q => (q.1, q.2.1)) with
+    | none =>
+      have : r.frozen.find? (fun p => p.1 == x) = none := hf
+      rw [this]; rfl
+    | some q =>
+      have : r.frozen.find? (fun p => p.1 == x) = some q := hf
+      rw [this]; rfl
+
 
 end Hive.EventsRelink
